@@ -11,6 +11,9 @@
 (*   empty (nothing but, possibly, a comment), blank (white space only),    *)
 (*   field, const, pad, union, deprecated, sealed, extent, assert, print,   *)
 (*   marker (---), offq (a directive whose expression reads _offset_),      *)
+(*   kdef (a constant named K), kuse (a constant whose initialiser reads    *)
+(*   K), kprint (a @print that reads K): identifiers resolve to the         *)
+(*   constants of the SAME section (request / response) only,               *)
 (*   and the faulty kinds badconst (a constant whose value does not fit:    *)
 (*   detected when the attribute is committed), assertfalse, undef          *)
 (*   (undefined identifier), syntax (the line does not parse).              *)
@@ -36,11 +39,12 @@ CONSTANTS Alphabet,          \* set of line symbols offered to AddLine
 VARIABLES lines, out
 vars == <<lines, out>>
 
-AttrKinds == {"field", "const", "pad", "badconst"}
+AttrKinds == {"field", "const", "pad", "badconst", "kdef", "kuse"}
+ConstKinds == {"const", "kdef", "kuse"}
 \* mlprint: a @print whose expression holds a string literal that spans two physical lines (all line numbers of this
 \* module are indices of abstract lines; the harness maps them to the first physical line of each abstract line)
 StmtKinds == AttrKinds \cup {"union", "deprecated", "sealed", "extent", "assert", "print", "marker", "offq",
-                             "assertfalse", "undef", "mlprint"}
+                             "assertfalse", "undef", "mlprint", "kprint"}
 HasStmt(l) == l.k \in StmtKinds
 IsEmptyLine(l) == l.k = "empty" /\ ~l.c        \* the only line on which visit_line flushes
 
@@ -52,9 +56,9 @@ NoErr  == [e |-> FALSE, line |-> 0]
 \* log: the steps as the hooks of the implementation record them (Binding B): header flushes, commits of queued
 \* attributes (with the line of their statement and their doc), dropped comments, statements; no-op flushes are omitted
 St0 == [comment |-> <<>>, hdr |-> TRUE, pending |-> <<>>, structs |-> <<EmptyB>>, dep |-> FALSE,
-        prints |-> <<>>, err |-> NoErr, log |-> <<>>]
+        prints |-> <<>>, refs |-> <<>>, err |-> NoErr, log |-> <<>>]
 Logged(s, e) == [s EXCEPT !.log = Append(@, e)]
-StmtClass(k) == CASE k \in {"field"} -> "field" [] k \in {"const", "badconst"} -> "const" [] k = "pad" -> "pad"
+StmtClass(k) == CASE k \in {"field"} -> "field" [] k \in {"const", "badconst", "kdef", "kuse"} -> "const" [] k = "pad" -> "pad"
                   [] k = "marker" -> "marker" [] OTHER -> "directive"
 
 Failed(s) == s.err.e
@@ -69,7 +73,7 @@ Commit(s, p, doc, now) ==
   LET b == Cur(s)
       errline == IF AsFoundDeferredLine THEN now ELSE p.i
   IN CASE p.k = "badconst" -> Fail(s, errline)                     \* Constant() raises InvalidConstantValueError
-       [] p.k = "const"    -> SetCur(s, [b EXCEPT !.consts = Append(@, [i |-> p.i, doc |-> doc])])
+       [] p.k \in ConstKinds -> SetCur(s, [b EXCEPT !.consts = Append(@, [k |-> p.k, i |-> p.i, doc |-> doc])])
        [] OTHER            -> IF b.union /\ b.offc                    \* add_field after the offset was computed
                               THEN Fail(s, errline)
                               ELSE SetCur(s, [b EXCEPT !.fields = Append(@, [k |-> p.k, i |-> p.i, doc |-> doc])])
@@ -83,11 +87,18 @@ FlushComment(s, now) ==
        ELSE IF s.comment # <<>> THEN Logged([s EXCEPT !.comment = <<>>], [e |-> "drop", doc |-> s.comment])
        ELSE s                                    \* a comment without an owner is dropped
 
+\* resolve_top_level_identifier: the first constant named K among the attributes committed to the CURRENT section
+KLine(b) == LET D == { j \in DOMAIN b.consts : b.consts[j].k = "kdef" } IN
+              IF D = {} THEN 0 ELSE b.consts[CHOOSE j \in D : \A m \in D : j <= m].i
+ReadsK(l) == l.k \in {"kuse", "kprint"}
 Apply(s, l, i) ==
   LET b == Cur(s) IN
-  CASE l.k \in AttrKinds ->
+  CASE ReadsK(l) /\ KLine(b) = 0 -> Fail(s, i)                        \* undefined identifier
+    [] l.k = "kprint" -> [s EXCEPT !.prints = Append(@, i), !.refs = Append(@, [i |-> i, ref |-> KLine(b), k |-> "kprint"])]
+    [] l.k \in AttrKinds ->
          IF b.mode = "extent" THEN Fail(s, i)                        \* _on_attribute
-         ELSE [s EXCEPT !.pending = <<[k |-> l.k, i |-> i]>>]          \* _queue_attribute
+         ELSE [s EXCEPT !.pending = <<[k |-> l.k, i |-> i]>>,          \* _queue_attribute
+                        !.refs = IF l.k = "kuse" THEN Append(@, [i |-> i, ref |-> KLine(b), k |-> "kuse"]) ELSE @]
     [] l.k = "union" ->
          IF b.union \/ HasAttrs(b) THEN Fail(s, i) ELSE SetCur(s, [b EXCEPT !.union = TRUE])
     [] l.k = "deprecated" ->
@@ -106,7 +117,8 @@ Apply(s, l, i) ==
 \* (an undefined identifier raises while the expression is visited, before the statement visitor runs)
 Stmt(s, l, i) == LET f == FlushComment(s, i) IN
                    IF Failed(f) THEN f
-                   ELSE Apply(IF l.k = "undef" THEN f ELSE Logged(f, [e |-> "stmt", c |-> StmtClass(l.k), i |-> i]), l, i)
+                   ELSE Apply(IF l.k = "undef" \/ (ReadsK(l) /\ KLine(Cur(f)) = 0) THEN f
+                              ELSE Logged(f, [e |-> "stmt", c |-> StmtClass(l.k), i |-> i]), l, i)
 Comment(s, l, i) == IF l.c THEN [s EXCEPT !.comment = Append(@, i)] ELSE s
 \* visit_line: only a line of length zero flushes (WhitespaceOnlyLineDoesNotFlush)
 LineEnd(s, l, i) == IF IsEmptyLine(l) THEN FlushComment(s, i) ELSE s
@@ -130,6 +142,7 @@ Final(s, n) == IF Failed(s) \/ AsFoundNoFinalFlush THEN s
 \* DataTypeBuilder.finalize: errors found here carry no line
 SchemaOK(b) ==
   /\ b.mode # "none"
+  /\ Cardinality({ j \in DOMAIN b.consts : b.consts[j].k = "kdef" }) <= 1        \* attribute names are unique
   /\ b.union => /\ Len(b.fields) >= 2
                 /\ \A j \in DOMAIN b.fields : b.fields[j].k # "pad"
 
@@ -143,12 +156,12 @@ FinalizeEvent(f) == [e |-> "finalize", dep |-> f.dep,
                                                               union |-> f.structs[j].union, mode |-> f.structs[j].mode]]]
 \* The observable result of reading the text: the model's projection, or the error's line; plus the @print events.
 Result(ls) ==
-  IF FirstSyntax(ls) > 0 THEN [ok |-> FALSE, line |-> FirstSyntax(ls), prints |-> <<>>, log |-> <<>>]   \* nothing is visited
+  IF FirstSyntax(ls) > 0 THEN [ok |-> FALSE, line |-> FirstSyntax(ls), prints |-> <<>>, refs |-> <<>>, log |-> <<>>]   \* nothing is visited
   ELSE LET f == Final(Machine(ls), Len(ls)) IN
-       IF Failed(f) THEN [ok |-> FALSE, line |-> f.err.line, prints |-> f.prints, log |-> f.log]
+       IF Failed(f) THEN [ok |-> FALSE, line |-> f.err.line, prints |-> f.prints, refs |-> f.refs, log |-> f.log]
        ELSE IF \E j \in DOMAIN f.structs : ~SchemaOK(f.structs[j])
-            THEN [ok |-> FALSE, line |-> 0, prints |-> f.prints, log |-> Append(f.log, FinalizeEvent(f))]
-            ELSE [ok |-> TRUE, service |-> (Len(f.structs) = 2), dep |-> f.dep, prints |-> f.prints,
+            THEN [ok |-> FALSE, line |-> 0, prints |-> f.prints, refs |-> f.refs, log |-> Append(f.log, FinalizeEvent(f))]
+            ELSE [ok |-> TRUE, service |-> (Len(f.structs) = 2), dep |-> f.dep, prints |-> f.prints, refs |-> f.refs,
                   log |-> Append(f.log, FinalizeEvent(f)),
                   parts |-> [j \in DOMAIN f.structs |->
                                [union |-> f.structs[j].union, mode |-> f.structs[j].mode, doc |-> f.structs[j].doc,
@@ -161,7 +174,7 @@ Markers(ls) == { j \in DOMAIN ls : ls[j].k = "marker" }
 \* part (1 = message or request, 2 = response) a line belongs to
 PartOf(ls, j) == IF \E m \in Markers(ls) : m < j THEN 2 ELSE 1
 FieldLines(ls, p) == { j \in DOMAIN ls : ls[j].k \in {"field", "pad"} /\ PartOf(ls, j) = p }
-ConstLines(ls, p) == { j \in DOMAIN ls : ls[j].k = "const" /\ PartOf(ls, j) = p }
+ConstLines(ls, p) == { j \in DOMAIN ls : ls[j].k \in ConstKinds /\ PartOf(ls, j) = p }
 
 RECURSIVE SortedSeq(_)
 SortedSeq(S) == IF S = {} THEN <<>>
@@ -184,11 +197,14 @@ ValidPlacement(ls) ==
        LET L == PartLines(ls, p)
            Modes == { j \in L : ls[j].k \in {"sealed", "extent"} }
            Unions == { j \in L : ls[j].k = "union" }
-           Attrs == { j \in L : ls[j].k \in {"field", "pad", "const"} }
+           Attrs == { j \in L : ls[j].k \in {"field", "pad"} \cup ConstKinds }
+           KDefs == { j \in L : ls[j].k = "kdef" }
            Flds == { j \in L : ls[j].k \in {"field", "pad"} }
        IN /\ Cardinality(Modes) = 1                                      \* exactly one of @sealed / @extent
           /\ \A m \in Modes : ls[m].k = "extent" => \A a \in Attrs : a < m  \* @extent after the last attribute
           /\ Cardinality(Unions) <= 1
+          /\ Cardinality(KDefs) <= 1                                      \* unique attribute names
+          /\ \A q \in L : ReadsK(ls[q]) => \E d \in KDefs : d < q            \* identifiers are defined before use, in this part
           /\ \A u \in Unions : \A a \in Attrs : u < a                    \* @union before the first attribute
           /\ Unions # {} => /\ Cardinality({ j \in Flds : ls[j].k = "field" }) >= 2
                             /\ \A j \in Flds : ls[j].k # "pad"
@@ -196,7 +212,7 @@ ValidPlacement(ls) ==
                             /\ \A q \in L : ls[q].k = "offq" => \A a \in Flds : a < q
   /\ LET Deps == { j \in DOMAIN ls : ls[j].k = "deprecated" } IN
        /\ Cardinality(Deps) <= 1
-       /\ \A d \in Deps : PartOf(ls, d) = 1 /\ \A a \in DOMAIN ls : ls[a].k \in {"field", "pad", "const"} => d < a
+       /\ \A d \in Deps : PartOf(ls, d) = 1 /\ \A a \in DOMAIN ls : ls[a].k \in {"field", "pad"} \cup ConstKinds => d < a
 
 -----------------------------------------------------------------------------
 (* Part 3: enumeration and properties *)
@@ -235,7 +251,15 @@ FlagsMirror ==
                  /\ out.parts[p].mode = "sealed" <=> \E j \in PartLines(lines, p) : lines[j].k = "sealed"
                  /\ out.parts[p].mode = "extent" <=> \E j \in PartLines(lines, p) : lines[j].k = "extent"
 PrintsMirror ==
-  out.ok => out.prints = SortedSeq({ j \in DOMAIN lines : lines[j].k \in {"print", "mlprint"} })
+  out.ok => out.prints = SortedSeq({ j \in DOMAIN lines : lines[j].k \in {"print", "mlprint", "kprint"} })
+\* an identifier denotes the constant of that name defined in its own part of the definition (never the other part's)
+RefsMirror ==
+  \A n \in DOMAIN out.refs :
+     LET r == out.refs[n] IN
+       /\ lines[r.ref].k = "kdef" /\ r.ref < r.i /\ PartOf(lines, r.ref) = PartOf(lines, r.i)
+       /\ \A d \in DOMAIN lines : (lines[d].k = "kdef" /\ PartOf(lines, d) = PartOf(lines, r.i)) => r.ref <= d
+RefsComplete ==
+  out.ok => { out.refs[n].i : n \in DOMAIN out.refs } = { j \in DOMAIN lines : ReadsK(lines[j]) }
 
 \* C05 (directive placement part): accepted iff the placement rules hold
 AcceptIffValid == out.ok <=> ValidPlacement(lines)
@@ -252,7 +276,7 @@ ErrLineIsStatementLine ==
 \* prints delivered before a failure are exactly the @print lines before the failing line
 PrintsBeforeError ==
   ~out.ok /\ out.line # 0 /\ FirstSyntax(lines) = 0 =>
-     out.prints = SortedSeq({ j \in DOMAIN lines : lines[j].k \in {"print", "mlprint"} /\ j < out.line })
+     out.prints = SortedSeq({ j \in DOMAIN lines : lines[j].k \in {"print", "mlprint", "kprint"} /\ j < out.line })
 
 \* step level: every attribute statement is committed exactly once, after its statement and before finalization
 CommitOncePerStatement ==
